@@ -1,6 +1,7 @@
 import DicomModel.Model.Util
 import DicomModel.Model.Writer
 import DicomModel.Model.Valid
+import DicomModel.Model.Charset
 import Driver.Loop
 import Driver.Tree
 open Dicom Driver
@@ -110,6 +111,76 @@ partial def runOps (ts : Syntax) (e : Enc) : List String → Option (Enc × Bool
     | some (.ok e') => runOps ts e' rest'
     | some (.error _) => some (e, false)
 
+/-! ### `cstxt`: text elements under a Specific Character Set other than the default one -/
+
+/-- the multi-byte codecs of the `encoding` crate are not evaluated here (the generator does not use them) -/
+def noExtCodec : Charset.Gen.Cs → Charset.Codec := fun _ => ⟨fun _ => none, fun _ => []⟩
+
+def parseCsElem (tok : String) : Option (Tag × Charset.Elem) :=
+  match tok.splitOn ":" with
+  | [tag, vr, form, vals] =>
+    match parseTag8 tag, VR.ofName? vr with
+    | some t, some v =>
+      let comps := allSome ((if vals == "-" then [""] else vals.splitOn ",").map fun h =>
+        if h == "-" || h.isEmpty then some [] else (unhexStr h).map (·.map Char.toNat))
+      match comps with
+      | some cs =>
+        if form == "s" then some (t, ⟨t.group * 65536 + t.elem, v, .str, cs⟩)
+        else if form == "m" then some (t, ⟨t.group * 65536 + t.elem, v, .strs, cs⟩) else none
+      | none => none
+    | _, _ => none
+  | _ => none
+
+def handleCsTxt (k csHex : String) (rest : List String) : String :=
+  let (elToks, res) := splitAt "R" ((rest.dropWhile (· ≠ "E")).drop 1)
+  match tsOf4 k, (unhexStr csHex).bind (fun n => Charset.fromCode (n.map Char.toNat)), allSome (elToks.map parseCsElem) with
+  | some syn, some cs, some els =>
+    match res with
+    | ["panic"] => "PROP-FAIL class=write-panic call=cstxt"
+    | ["err"] => "PROP-FAIL class=write-failed call=cstxt every value is encodable in the set"
+    | ["ok", hx, cnt] =>
+      match unhex hx, cnt.toNat? with
+      | some out, some n =>
+        if n ≠ out.length then s!"PROP-FAIL class=byte-count call=cstxt reported={n} written={out.length}" else
+        -- ORACLE: the independent parser accepts the stream, one element per value, even lengths, and
+        -- each value field is the encoded text padded (only when odd) with the VR's padding byte
+        let cfg : Valid.Cfg := { explicit := syn.explicit, bigEndian := syn.bigEndian, isSeq := fun _ _ => false }
+        match Valid.parsePS35 cfg out with
+        | none => s!"PROP-FAIL class=invalid-structure call=cstxt bytes={hx}"
+        | some vals =>
+          if vals.length ≠ els.length then s!"PROP-FAIL class=element-count call=cstxt" else
+          let wires : List (Option Charset.Wire) :=
+            els.map fun (x : Tag × Charset.Elem) => (Charset.writeElem (Charset.codecOf noExtCodec) cs x.2).map (·.1)
+          let bad := (els.zip (vals.zip wires)).find? fun (x : (Tag × Charset.Elem) × (Valid.PVal × Option Charset.Wire)) =>
+            let t := x.1.1; let p := x.2.1
+            t.group ≠ p.group || t.elem ≠ p.elem || p.value.length % 2 ≠ 0 ||
+            (match x.2.2 with
+             | some w => w.bytes ≠ p.value
+             | none => true)
+          match bad with
+          | some ((t, e), (p, w)) =>
+            s!"PROP-FAIL class=text-padding call=cstxt tag={t.group},{t.elem} vr={e.vr.name} expected={match w with | some w => hexOf w.bytes | none => "?"} encoded={hexOf p.value}"
+          | none =>
+            -- MODEL: header of the syntax + value bytes, element after element
+            let model : Option Bytes := (els.zip wires).foldl (fun (acc : Option Bytes) (x : (Tag × Charset.Elem) × Option Charset.Wire) =>
+              let t := x.1.1; let e := x.1.2
+              match acc, x.2 with
+              | some a, some w =>
+                (match encodeHeader syn ⟨t, e.vr, w.bytes.length⟩ with
+                 | .ok (h, _) => some (a ++ h ++ w.bytes)
+                 | .error _ => none)
+              | _, _ => none) (some [])
+            if model ≠ some out then s!"MODEL-DIFF call=cstxt model={match model with | some m => hexOf m | none => "err"} impl={hx}"
+            else
+              let nonAscii := els.any fun (x : Tag × Charset.Elem) => x.2.vals.any fun v => v.any (· ≥ 128)
+              let odd := wires.any fun (w : Option Charset.Wire) => match w with
+                | some w => w.bytes.getLast? == some 32 || w.bytes.getLast? == some 0
+                | none => false
+              s!"ok {if out.isEmpty then "trivial-" else ""}cstxt-{k}-{(String.ofList ((unhexStr csHex).getD [])).replace " " "_"}-n{els.length}-{if nonAscii then "na" else "ascii"}-{if odd then "pad" else "nopad"}"
+      | _, _ => "BAD-LINE"
+    | _ => "BAD-LINE"
+  | _, _, _ => "BAD-LINE"
+
 def handle (line : String) : String :=
   match tokens line with
   | "ds" :: ts :: path :: "T" :: rest =>
@@ -134,6 +205,7 @@ def handle (line : String) : String :=
         let triv := if prims.isEmpty ∧ elemsSeqTags tree = [] ∧ !elemsHasPix tree then "trivial-" else ""
         s!"ok {triv}ds-{ts}-{path}-d{elemsDepth tree}-n{min prims.length 6}-px{elemsHasPix tree}-x{elemsHasExplicit tree}-{ka}{kb}{kc}"
     | _, _, _ => "BAD-LINE"
+  | "cstxt" :: k :: csHex :: rest => handleCsTxt k csHex rest
   | "prim" :: k :: val :: bl :: "R" :: res =>
     match tsOf4 k, parseValue val, (bl.drop 3).toString.toNat? with
     | some syn, some v, some blen =>
